@@ -149,3 +149,19 @@ Proof.
   intros t Ht [H1 H2]. destruct (Rtotal_order t 0) as [Hn|[Hz|Hp]]; lra.
 Qed.
 Print Assumptions C14_bounded_eigenvector_corner_refuted.
+
+(** Refuted for the code as it is (known finding D19, `at_bounded_runaway`): "scale parameters stay
+    ... admissible" has no bound uniform in the configuration.  For every target rate, initial
+    log-scale and bound M there is an adaptation duration T such that the always-accepted history
+    (what a flat bounded target or a level at beta = 0 produces) carries the log-scale of the
+    Robbins-Monro adapted families above M within the first quarter of the window
+    (the log-scale grows like T^0.4): nothing caps it, and the rejection loops of the bounded /
+    angular variants then need a number of draws that grows without bound. *)
+From Epsie Require Import Adapt_unbounded_proofs.
+Theorem C14_rm_scale_unbounded_refuted :
+  forall target r0 M : R, 0 < target < 1 ->
+  exists (T : Z) (m : nat),
+    let p := {| r_log := r0; r_T := T; r_target := target; r_start := 1; r_decayc := exp (- (6 / 10) * ln (IZR T)) |} in
+    (1 < T)%Z /\ M < r_log (accept_run p m).
+Proof. exact rm_scale_unbounded. Qed.
+Print Assumptions C14_rm_scale_unbounded_refuted.
